@@ -1,4 +1,5 @@
 import Echse.Model.Rrule
+import Echse.Model.RrCand
 import Driver.Util
 open Echse.Rrule
 namespace Driver
@@ -16,8 +17,36 @@ def splitBars (args : List String) : List (List String) :=
     | [] => [[w]]
     | a :: rest => (w :: a) :: rest) [[]]
 
+/-- `y.cand FN Y …`: one of the candidate builders of Echse.Model.RrCand on an empty set (formats: hx_rrul.c) -/
+def runCand (fn : String) (y : Nat) (rest : List String) : String :=
+  let il := fun (s : List String) => parseIntList? (s.headD "-")
+  let nl := fun (s : List String) => parseNatList? (s.headD "-")
+  let wd := fun (s : List String) => (s.headD "").toNat?.map (· % 256)
+  let out := fun (o : Option (List Nat)) => match o with | some c => showCand c | none => "bad-op"
+  match fn, splitBars rest with
+  | "ywd", [a, b] => out do fillYlyYwd [] y (← il a) (← il b)
+  | "ymcw", [a, b] => out do fillYlyYmcw [] y (← il a) ((← nl b).take 12)
+  | "mdall", [a, b] => out do fillYlyMdAll [] y ((← nl a).take 12) (← wd b)
+  | "ycw", [a] => out do fillYlyYcw [] y (← il a)
+  | "ydall", [a] => out do fillYlyYdAll [] y (← wd a)
+  | "yd", [a, b] => out do fillYlyYd [] y (← il a) (← wd b)
+  | "ymdallm", [a, b] => out do fillYlyYmdAllM [] y ((← il a).take 62) (← wd b)
+  | "ymdalld", [a, b] => out do fillYlyYmdAllD [] y ((← nl a).take 12) (← wd b)
+  | "ymd", [a, b, c] => out do fillYlyYmd [] y ((← nl a).take 12) ((← il b).take 62) (← wd c)
+  | _, _ => "bad-op"
+
 def runRrule (op : String) (args : List String) : String :=
   match op, args with
+  | "y.mcnt", [y, m, w] => match y.toNat?, m.toNat?, w.toNat? with
+    | some y, some m, some w => toString (getMcnt y m w) | _, _, _ => "bad-op"
+  | "y.ymcw", [y, m, c, w] => match y.toNat?, m.toNat?, c.toInt?, w.toNat? with
+    | some y, some m, some c, some w => toString (ymcwGetDom y m c w) | _, _, _, _ => "bad-op"
+  | "y.ycw", [y, c, w] => match y.toNat?, c.toInt?, w.toNat? with
+    | some y, some c, some w => toString (ycwGetYday y c w) | _, _, _ => "bad-op"
+  | "y.ywd", [y, w, d] => match y.toNat?, w.toInt?, d.toInt? with
+    | some y, some w, some d => toString (ywdGetYday y w d) | _, _, _ => "bad-op"
+  | "y.isowk", [y] => match y.toNat? with | some y => toString (getIsowk y) | none => "bad-op"
+  | "y.cand", fn :: y :: rest => match y.toNat? with | some y => runCand fn y rest | none => "bad-op"
   | "y.easter", [y] => match y.toNat? with | some y => toString (easterGetYday y) | none => "bad-op"
   | "y.wday", [y, m, d] => match y.toNat?, m.toNat?, d.toNat? with
     | some y, some m, some d => toString (ymdGetWday y m d) | _, _, _ => "bad-op"
